@@ -3,6 +3,7 @@ package main
 // Calls: builtins, trusted standard-library contracts, inlining, contract calls, defers.
 
 import (
+	"regexp"
 	"fmt"
 	"go/ast"
 	"go/token"
@@ -342,7 +343,7 @@ func (t *fnTrans) memUpdate(mem *Cell, lo, hi Expr, gen func(old Expr, a Expr) E
 	} else {
 		body = Implies(Not(in), Eq(Select(mem, a), Select(old, a)))
 	}
-	t.cur.Assume(&Quant{Forall: true, Vars: []*Var{a}, Body: body, Pats: [][]Expr{{Select(mem, a)}}})
+	t.cur.AssumeL(&Quant{Forall: true, Vars: []*Var{a}, Body: body, Pats: [][]Expr{{Select(mem, a)}}}, "$mem")
 	if !th.bv {
 		_, es := mem.S.ArrayParts()
 		if es == SInt {
@@ -432,6 +433,14 @@ func (f *frame) contractCall(fc *FuncContract, callee *ssa.Function, args []sval
 	t := f.t
 	th := t.th
 	t.callSeq[fc.Name]++
+	if t.calleeLibs == nil {
+		t.calleeLibs = map[string]bool{}
+	}
+	if fc.Theory == t.fc.Theory {
+		for _, l := range fc.Uses {
+			t.calleeLibs[l] = true
+		}
+	}
 	site := fmt.Sprintf("%s#%d", fc.Name, t.callSeq[fc.Name])
 	env := &specEnv{f: f, names: map[string]sval{}, fn: callee, atCall: true}
 	if (fc.Theory == "bv") != th.bv {
@@ -922,9 +931,17 @@ func (f *frame) stmtSite(in ssa.Instruction) {
 	if t.stmtSites == nil {
 		t.stmtSites = map[ssa.Instruction][]string{}
 		want := map[string]bool{}
+		// a site names a statement by its text as it was when the contract was written; locals renamed
+		// since then (see `locals`) are renamed in that text as well
+		alias := map[string]string{} // text as it is in the code now -> site as written in the contract
 		add := func(site string) {
 			if strings.HasPrefix(site, "stmt ") || strings.HasPrefix(site, "after stmt ") {
-				want[site] = true
+				cur := site
+				for from, to := range t.renames {
+					cur = regexp.MustCompile(`\b`+regexp.QuoteMeta(from)+`\b`).ReplaceAllString(cur, to)
+				}
+				want[cur] = true
+				alias[cur] = site
 			}
 		}
 		for _, a := range t.fc.Asserts {
@@ -980,7 +997,7 @@ func (f *frame) stmtSite(in ssa.Instruction) {
 				case *ast.ForStmt, *ast.RangeStmt:
 					fail("stmt site %q is a loop statement", site)
 				}
-				cands = append(cands, cand{st, site})
+				cands = append(cands, cand{st, alias[site]})
 			}
 			if want["after "+site] {
 				switch st.(type) {
@@ -988,7 +1005,7 @@ func (f *frame) stmtSite(in ssa.Instruction) {
 				default:
 					fail("site %q: `after` needs a simple statement", "after "+site)
 				}
-				cands = append(cands, cand{st, "after " + site})
+				cands = append(cands, cand{st, alias["after "+site]})
 			}
 			return true
 		})
@@ -1063,7 +1080,7 @@ func (f *frame) fireSite(site string) {
 		}
 		for _, d := range t.fc.GhostAtDefs {
 			if d.Site == site {
-				t.cur.Assume(f.specBool(d.E, env))
+				t.cur.AssumeL(f.specBool(d.E, env), d.Label)
 			}
 		}
 		t.assumptions["initial ghost state of an object allocated by "+t.fc.Pkg+"."+t.fc.Name+" (definitional)"] = true
